@@ -101,6 +101,9 @@ type Step struct {
 // Input is a whole history; Steps[0] builds the initial configuration.
 type Input struct {
 	Shards int `json:"shards,omitempty"`
+	// OldExits: a reloaded HAProxy process exits at once; default is what HAProxy does, a soft stop
+	// in which the old process keeps serving the connections it had accepted
+	OldExits bool `json:"old_exits,omitempty"`
 	// StrictHost: global strict-host; SyncConfig adds a "/" path to hosts that have none
 	StrictHost bool   `json:"strict_host,omitempty"`
 	SortBy     string `json:"sort_by,omitempty"`
@@ -200,6 +203,7 @@ type StepObs struct {
 	HostSet     bool      `json:"host_set,omitempty"` // a host was added or removed
 	Commands    int       `json:"commands"`
 	Lost        int       `json:"lost"`
+	Stale       int       `json:"stale"` // commands executed by a process that no longer listens
 	FaultsHit   int       `json:"faults_hit"`
 	// Diff: running process vs files on disk after the step ("" = equal)
 	Diff string `json:"diff,omitempty"`
@@ -277,6 +281,7 @@ func NewWorld(dir string, in *Input) (*World, error) {
 	w := &World{Dir: dir, met: &metrics{}, backs: map[string]BackSpec{}, hosts: map[string]HostSpec{}, strictHost: in.StrictHost}
 	w.dumper = spew.ConfigState{Indent: " ", DisablePointerAddresses: true, DisableCapacities: true, DisableMethods: true, SortKeys: true, MaxDepth: 8}
 	w.Fake = fakehaproxy.New(dir)
+	w.Fake.OldExits = in.OldExits
 	// unix socket paths are limited to ~100 bytes: keep them short
 	admin := filepath.Join(dir, "a.sock")
 	master := filepath.Join(dir, "m.sock")
@@ -747,6 +752,9 @@ func (w *World) Apply(st *Step) (obs *StepObs) {
 	for _, e := range exch {
 		if e.Lost {
 			obs.Lost++
+		}
+		if e.Stale {
+			obs.Stale++
 		}
 		if e.Fault != "" {
 			obs.FaultsHit++
